@@ -29,6 +29,15 @@ def cntD : List Op → Nat
 /-- every probability bit uses a probability in the invariant range [31, 2017] -/
 def OpsOk (ops : List Op) : Prop := ∀ op ∈ ops, op.kind = .prob → ProbInv op.p
 
+/-- The same, also allowing the one degenerate case the executable model (Model/Lzma.lean) has: an index outside the
+    probability array reads as probability 0, for which `rc_bit` always decodes 1 and leaves the range unchanged.
+    (With valid lc/lp/pb no index is outside — Props/C03 `prob_indices_in_bounds` — but the byte bound does not need that.) -/
+def OpOk0 (op : Op) : Prop := op.kind = .prob → ProbInv op.p ∨ (op.p = 0 ∧ op.bit = true)
+
+def OpsOk0 (ops : List Op) : Prop := ∀ op ∈ ops, OpOk0 op
+
+theorem OpsOk.to0 {ops : List Op} (h : OpsOk ops) : OpsOk0 ops := fun op ho hk => Or.inl (h op ho hk)
+
 theorem cntP_eq (ops : List Op) : cntP ops = countKind P (shapeOf ops) := by
   induction ops with
   | nil => rfl
@@ -56,6 +65,25 @@ theorem normR_spec (r : Nat) (hlo : 65536 ≤ r) (hhi : r < U32) :
     refine ⟨by omega, by omega, by omega, by omega, by simp⟩
 
 /-- a probability bit from a normalised range: shrinks by less than a factor 67, stays ≥ 8192·31, strictly shrinks -/
+theorem opR_prob0 (t p : Nat) (bit : Bool) (hlo : RC_TOP_VALUE ≤ t) (hhi : t < U32) (hp : ProbInv p ∨ (p = 0 ∧ bit = true)) :
+    t ≤ 67 * opR t { kind := .prob, p := p, bit := bit } ∧ 253952 ≤ opR t { kind := .prob, p := p, bit := bit }
+    ∧ opR t { kind := .prob, p := p, bit := bit } ≤ t := by
+  rcases hp with hp | ⟨hp, hb⟩
+  · unfold ProbInv at hp
+    simp only [RC_TOP_VALUE, U32] at hlo hhi
+    have hq1 : 31 * (t / 2048) ≤ (t / 2048) * p := by
+      rw [Nat.mul_comm]; exact Nat.mul_le_mul_left _ hp.1
+    have hq2 : (t / 2048) * p ≤ (t / 2048) * 2017 := Nat.mul_le_mul_left _ hp.2
+    unfold opR rcBound
+    simp only [RC_BIT_MODEL_TOTAL]
+    generalize (t / 2048) * p = bound at *
+    cases bit <;> simp <;> omega
+  · subst hp; subst hb
+    simp only [RC_TOP_VALUE, U32] at hlo hhi
+    unfold opR rcBound
+    simp
+    omega
+
 theorem opR_prob (t p : Nat) (bit : Bool) (hlo : RC_TOP_VALUE ≤ t) (hhi : t < U32) (hp : ProbInv p) :
     t ≤ 67 * opR t { kind := .prob, p := p, bit := bit } ∧ 253952 ≤ opR t { kind := .prob, p := p, bit := bit }
     ∧ opR t { kind := .prob, p := p, bit := bit } < t := by
@@ -78,7 +106,7 @@ theorem opR_direct (t : Nat) (op : Op) (hk : op.kind = .direct) (hlo : RC_TOP_VA
   omega
 
 /-- The potential inequality, and the range stays in `[65536, 2^32)`. -/
-theorem runR_inv : ∀ (ops : List Op) (r : Nat), 65536 ≤ r → r < U32 → OpsOk ops →
+theorem runR_inv : ∀ (ops : List Op) (r : Nat), 65536 ≤ r → r < U32 → OpsOk0 ops →
     65536 ≤ (runR r ops).1 ∧ (runR r ops).1 < U32
     ∧ r * 256 ^ (runR r ops).2 * 16777215 ^ cntD ops ≤ (runR r ops).1 * 67 ^ cntP ops * 33554432 ^ cntD ops := by
   intro ops
@@ -89,13 +117,13 @@ theorem runR_inv : ∀ (ops : List Op) (r : Nat), 65536 ≤ r → r < U32 → Op
   | cons op ops ih =>
     intro r hlo hhi hok
     obtain ⟨n1, n2, n3, _, _⟩ := normR_spec r hlo hhi
-    have hok' : OpsOk ops := fun o ho hk => hok o (List.mem_cons_of_mem _ ho) hk
+    have hok' : OpsOk0 ops := fun o ho hk => hok o (List.mem_cons_of_mem _ ho) hk
     cases hk : op.kind with
     | prob =>
-      have hp : ProbInv op.p := hok op List.mem_cons_self hk
+      have hp : ProbInv op.p ∨ (op.p = 0 ∧ op.bit = true) := hok op List.mem_cons_self hk
       have hop : opR (normR r).1 op = opR (normR r).1 { kind := .prob, p := op.p, bit := op.bit } := by
         unfold opR; simp [hk]
-      obtain ⟨s1, s2, s3⟩ := opR_prob (normR r).1 op.p op.bit n1 n2 hp
+      obtain ⟨s1, s2, s3⟩ := opR_prob0 (normR r).1 op.p op.bit n1 n2 hp
       rw [← hop] at s1 s2 s3
       obtain ⟨i1, i2, i3⟩ := ih (opR (normR r).1 op) (by omega) (by omega) hok'
       refine ⟨by simpa [runR] using i1, by simpa [runR] using i2, ?_⟩
@@ -137,7 +165,7 @@ theorem runR_inv : ∀ (ops : List Op) (r : Nat), 65536 ≤ r → r < U32 → Op
 /-- Bits within the budget (`budgetOk`), started from any range a finished symbol can leave (≥ 8192·31): at most 20
     bytes are read, and if 20 were read the range is normalised afterwards (so the normalisation before one more bit
     reads nothing). -/
-theorem runR_bound (ops : List Op) (r : Nat) (hlo : 253952 ≤ r) (hhi : r < U32) (hok : OpsOk ops)
+theorem runR_bound (ops : List Op) (r : Nat) (hlo : 253952 ≤ r) (hhi : r < U32) (hok : OpsOk0 ops)
     (hbud : budgetOk (cntP ops) (cntD ops) = true) :
     (runR r ops).2 ≤ 20 ∧ ((runR r ops).2 = 20 → RC_TOP_VALUE ≤ (runR r ops).1) := by
   obtain ⟨_, i2, i3⟩ := runR_inv ops r (by omega) hhi hok
@@ -187,10 +215,10 @@ theorem cntD_append (a b : List Op) : cntD (a ++ b) = cntD a + cntD b := by
 /-- One whole symbol: the bits before the last are within the budget and the last bit is a probability bit.
     At most 20 bytes are read, and the range left behind is again ≥ 8192·31 (so the bound chains over symbols). -/
 theorem symbol_bound (ops : List Op) (last : Op) (r : Nat) (hlo : 253952 ≤ r) (hhi : r < U32)
-    (hok : OpsOk (ops ++ [last])) (hl : last.kind = .prob) (hbud : budgetOk (cntP ops) (cntD ops) = true) :
+    (hok : OpsOk0 (ops ++ [last])) (hl : last.kind = .prob) (hbud : budgetOk (cntP ops) (cntD ops) = true) :
     (runR r (ops ++ [last])).2 ≤ 20 ∧ 253952 ≤ (runR r (ops ++ [last])).1 ∧ (runR r (ops ++ [last])).1 < U32 := by
-  have hok1 : OpsOk ops := fun o ho hk => hok o (List.mem_append_left _ ho) hk
-  have hpl : ProbInv last.p := hok last (List.mem_append_right _ List.mem_cons_self) hl
+  have hok1 : OpsOk0 ops := fun o ho hk => hok o (List.mem_append_left _ ho) hk
+  have hpl : ProbInv last.p ∨ (last.p = 0 ∧ last.bit = true) := hok last (List.mem_append_right _ List.mem_cons_self) hl
   obtain ⟨b1, b2⟩ := runR_bound ops r hlo hhi hok1 hbud
   obtain ⟨i1, i2, _⟩ := runR_inv ops r (by omega) hhi hok1
   rw [runR_append]
@@ -198,7 +226,7 @@ theorem symbol_bound (ops : List Op) (last : Op) (r : Nat) (hlo : 253952 ≤ r) 
   obtain ⟨n1, n2, _, n4, n5⟩ := normR_spec (runR r ops).1 i1 i2
   have hop : opR (normR (runR r ops).1).1 last = opR (normR (runR r ops).1).1 { kind := .prob, p := last.p, bit := last.bit } := by
     unfold opR; simp [hl]
-  obtain ⟨_, s2, s3⟩ := opR_prob (normR (runR r ops).1).1 last.p last.bit n1 n2 hpl
+  obtain ⟨_, s2, s3⟩ := opR_prob0 (normR (runR r ops).1).1 last.p last.bit n1 n2 hpl
   rw [← hop] at s2 s3
   refine ⟨?_, s2, by omega⟩
   by_cases h20 : (runR r ops).2 = 20
@@ -211,7 +239,7 @@ theorem symbol_bound (ops : List Op) (last : Op) (r : Nat) (hlo : 253952 ≤ r) 
 
 /-- The same from the shape predicate of Model/C04Sym.lean (`shapeOk`: the last bit is a probability bit and the bits
     before it are within the budget). -/
-theorem symbol_bound_of_shape (ops : List Op) (r : Nat) (hs : shapeOk (shapeOf ops) = true) (hok : OpsOk ops)
+theorem symbol_bound_of_shape (ops : List Op) (r : Nat) (hs : shapeOk (shapeOf ops) = true) (hok : OpsOk0 ops)
     (hlo : 253952 ≤ r) (hhi : r < U32) :
     (runR r ops).2 ≤ 20 ∧ 253952 ≤ (runR r ops).1 ∧ (runR r ops).1 < U32 := by
   unfold shapeOk at hs
